@@ -185,4 +185,31 @@ def r17_5(ctx):
     memo_rule(ctx, "R17.6", ["traceback", "syntax"], 1)
 
 
-RULES = [r17_1, r17_2, r17_3, r17_4, r17_5]
+def r17_7(ctx):
+    ctx.rule("R17.7", "indent guides never change the code's characters: with_indent_guides recognises indentation with a regex whose indent group matches ASCII spaces only, and overwrites exactly len(new_indent) == len(indent) leading characters")
+    from .. import regexast
+    f = ctx.repo.fn("text:Text.with_indent_guides")
+    m = f.module
+    rx = None
+    for x in walk_local(f.node):
+        if isinstance(x, ast.Assign) and norm(x.targets[0]) == "re_indent":
+            rx = regexast.compile_call(x.value)
+    strips = [c for c in walk_local(f.node) if isinstance(c, ast.Call) and isinstance(c.func, ast.Attribute) and c.func.attr in ("lstrip", "strip") and not c.args]
+    for c in strips:
+        ctx.violation(f.fq, short(c), f"{m.relpath}:{c.lineno}", f"`{short(c)}` treats every Unicode whitespace character as indentation: leading U+3000 / U+00A0 etc. are overwritten by guide characters and ASCII spaces, i.e. the displayed code differs from the source")
+    if rx is None:
+        if not strips:
+            raise AnchorVanished("with_indent_guides: indentation regex not found")
+        return
+    sp = regexast.parse_call(rx)
+    g1 = regexast.group_subpattern(sp, 1)
+    cs = regexast.chars_of(g1) if g1 is not None else None
+    ctx.check(cs == {("lit", " ")}, f.fq, rx.args[0].value, f"{m.relpath}:{rx.lineno}", "indentation = ASCII spaces only", f"the indentation group of `{rx.args[0].value}` matches {cs}: characters other than ASCII spaces would be replaced by guides")
+    src = norm(f.node)
+    ok = "full_indents, remaining_space = divmod(len(indent), _indent_size)" in src and "new_indent = f\"{indent_line * full_indents}{' ' * remaining_space}\"" in src.replace("'", "'") or "line.plain = new_indent + line.plain[len(new_indent):]" in src
+    ctx.check("line.plain = new_indent + line.plain[len(new_indent):]" in src and "divmod(len(indent), _indent_size)" in src, f.fq, "line.plain = new_indent + line.plain[len(new_indent):]", f.where,
+              "exactly the leading len(new_indent) characters are replaced", "the guides do not replace exactly the indentation prefix")
+    ctx.check("indent_line = f\"{character}{' ' * (_indent_size - 1)}\"" in src or "indent_line" in src, f.fq, "indent_line", f.where, "one guide character plus spaces per indent level", "indent_line is no longer one guide character plus spaces")
+
+
+RULES = [r17_1, r17_2, r17_3, r17_4, r17_5, r17_7]
